@@ -234,6 +234,32 @@ pub fn oracle_c10(w: &World, so: &StepObs, out: &mut StepOut) {
     if others > 0 && so.outcome.ok && so.act.is_engine_tx() {
         out.tag("c10:ok-tx-with-foreign-positions");
     }
+    // queries never change state: every observation query of the harness plus the remaining query
+    // variants of the engine and the insurance fund run on the post-state; the store must be unchanged
+    {
+        use margined_perp::margined_engine::{PnlCalcOption, QueryMsg as EQ};
+        use margined_perp::margined_insurance_fund::QueryMsg as IQ;
+        let before = w.store.0.borrow().clone();
+        let _ = observe(w, &["alice", "bob", "carol"]);
+        for t in ["alice", "bob", "carol"] {
+            let v0 = w.vamms[0].to_string();
+            let _: Result<serde_json::Value, String> = Err(String::new());
+            let _ = w.q::<Vec<Position>, _>(&w.engine, &EQ::AllPositions { trader: t.into() });
+            let _ = w.q::<cosmwasm_std::Uint128, _>(&w.engine, &EQ::BalanceWithFundingPayment { trader: t.into() });
+            let _ = w.q::<Position, _>(&w.engine, &EQ::PositionWithFundingPayment { vamm: v0.clone(), trader: t.into() });
+            let _ = w.free_collateral(0, t);
+            let _ = w.margin_ratio(0, t);
+            for o in [PnlCalcOption::SpotPrice, PnlCalcOption::Twap, PnlCalcOption::Oracle] {
+                let _ = w.q::<margined_perp::margined_engine::PositionUnrealizedPnlResponse, _>(&w.engine, &EQ::UnrealizedPnl { vamm: v0.clone(), trader: t.into(), calc_option: o });
+            }
+            let _ = w.q::<bool, _>(&w.engine, &EQ::IsWhitelisted { address: t.into() });
+        }
+        let _ = w.q::<margined_perp::margined_insurance_fund::AllVammStatusResponse, _>(&w.ifund, &IQ::GetAllVammStatus { limit: None });
+        out.tag("c10:query-batches");
+        if *w.store.0.borrow() != before {
+            out.viol("C10:query-changed-state", format!("the store differs after a batch of queries following {:?}", so.act));
+        }
+    }
 }
 
 /// Reference funding checkpoints kept by the harness (independent of the stored
@@ -571,10 +597,9 @@ pub fn oracle_c06_c07(w: &World, so: &StepObs, out: &mut StepOut, do6: bool, do7
         };
         let cum = vo.cum;
         let owed = owed_of(pp, cum);
-        if so.outcome.ok {
-            if !do6 {
-                return;
-            }
+        if so.outcome.ok && !do6 {
+            // C07 only: nothing to assert on a liquidation that went through
+        } else if so.outcome.ok {
             if r > cfg.mmr as i128 {
                 out.viol(
                     "C06:liquidated-above-maintenance",
@@ -661,7 +686,10 @@ pub fn oracle_c06_c07(w: &World, so: &StepObs, out: &mut StepOut, do6: bool, do7
             // C07: all stated preconditions
             let registered_open = vo.registered && vo.state.open;
             let fill_ok = p0.out_spot >= 0;
-            let band_ok = cfg.fluct == 0;
+            let band_ok = match vo.band {
+                None => true,
+                Some((lo, hi)) => vo.spot >= lo && vo.spot <= hi,
+            };
             let fee_ok = cfg.liq_fee != 0;
             let fund_ok = so.pre.balances[&ifu] as i128
                 >= pp.notional.u128() as i128 + pp.margin.u128() as i128 + p0.out_spot.max(0);
@@ -669,10 +697,19 @@ pub fn oracle_c06_c07(w: &World, so: &StepObs, out: &mut StepOut, do6: bool, do7
                 let cls = err_class(&so.outcome.err);
                 let vault = so.pre.balances[&eng] as i128;
                 let rem = pp.margin.u128() as i128 + pnl_of(pp, p0.out_spot) - owed;
+                // the partial path is taken when |ratio| > liquidation fee and the partial ratio is non-zero
+                let partial_path = cfg.plr != 0 && r.abs() > cfg.liq_fee as i128;
+                let partial_penalty = if partial_path {
+                    let ps = pp.size.value.u128() * cfg.plr / D;
+                    w.out_amount(*v, pp.direction.clone(), ps).map(|o| (o * cfg.liq_fee / D) as i128).unwrap_or(0)
+                } else {
+                    0
+                };
                 let refine = match cls.as_str() {
                     "overflow-sub" if cfg.plr != 0 && r < 0 => "partial-path-negative-ratio",
                     "response-parse" if cfg.real_feed => "real-price-feed",
-                    "transfer-failure" if vault < rem => "vault-below-remaining-margin",
+                    "transfer-failure" if partial_path && vault < partial_penalty => "partial-path-vault-below-penalty",
+                    "transfer-failure" if !partial_path && vault < rem => "vault-below-remaining-margin",
                     _ => "unclassified",
                 };
                 out.viol(
